@@ -111,6 +111,10 @@ type Session struct {
 	errorHandler func(error)
 	timeLocation *time.Location
 	mu           sync.Mutex
+
+	// stopTimers ends the heartbeat and test-request timers started by the previous Logon.
+	timersMu   sync.Mutex
+	stopTimers func()
 }
 
 // NewInitiatorSession returns a session for an Initiator object.
@@ -564,6 +568,20 @@ func (s *Session) start() error {
 		return err
 	}
 
+	// A repeated Logon on the same session replaces the timers of the previous one:
+	// otherwise both pairs keep running, with the old interval next to the new one.
+	timersCtx, cancelTimers := context.WithCancel(s.ctx)
+	s.timersMu.Lock()
+	if s.stopTimers != nil {
+		s.stopTimers()
+	}
+	s.stopTimers = func() {
+		cancelTimers()
+		incomingMsgTimer.Close()
+		outgoingMsgTimer.Close()
+	}
+	s.timersMu.Unlock()
+
 	s.Router.HandleIncoming(simplefixgo.AllMsgTypes, func(msg []byte) bool {
 		incomingMsgTimer.Refresh()
 		if s.currentState() == WaitingTestReqAnswer {
@@ -584,6 +602,8 @@ func (s *Session) start() error {
 		for {
 			incomingMsgTimer.TakeTimeout()
 			select {
+			case <-timersCtx.Done():
+				return
 			case <-s.ctx.Done():
 				return
 			default:
@@ -610,6 +630,8 @@ func (s *Session) start() error {
 		for {
 			outgoingMsgTimer.TakeTimeout()
 			select {
+			case <-timersCtx.Done():
+				return
 			case <-s.ctx.Done():
 				return
 			default:
